@@ -13,7 +13,7 @@ pub enum Ev {
     With(WithClause), Distinct(SelectDistinct), SelExpr(SelectExpr), TRef(TableRef), IndexHints, TableSample, Join(JoinExpr),
     Cond(Seq<char>, ConditionHolder), Expr(SimpleExpr), Union(UnionType, SelectStatement), Order(OrderExpr), FieldOrder(OrderExpr), LimitOffset,
     Lock(LockClause), Iden(DynIden), Window(WindowStatement),
-    Output(Option<ReturningClause>), Returning(Option<ReturningClause>), OcKeywords, OcTarget(Vec<OnConflictTarget>), OcAction(Option<OnConflictAction>), ColRef(ColumnRef), InsertKw(bool), DefaultValues(u32), OnConflict(Option<OnConflict>), Select(SelectStatement), UpdJoin, UpdFrom, UpdCond, UpdColumn(DynIden), UpdOrderBy, UpdLimit, DelOrderBy, DelLimit,
+    Output(Option<ReturningClause>), Returning(Option<ReturningClause>), JoinTy(JoinType), JoinOnEv(JoinOn), ValuesList(Vec<ValueTuple>), FuncName(FunctionCall), FuncArgs(FunctionCall), TRefIden(TableRef), OcKeywords, DoUpdateKw, Excluded(DynIden), OcTarget(Vec<OnConflictTarget>), OcAction(Option<OnConflictAction>), ColRef(ColumnRef), InsertKw(bool), DefaultValues(u32), OnConflict(Option<OnConflict>), Select(SelectStatement), UpdJoin, UpdFrom, UpdCond, UpdColumn(DynIden), UpdOrderBy, UpdLimit, DelOrderBy, DelLimit,
 }
 pub trait VWrite {
     spec fn tr(&self) -> Seq<Ev>;
@@ -26,4 +26,9 @@ pub proof fn lemma_assoc(a: Seq<Ev>, b: Seq<Ev>, c: Seq<Ev>)
     ensures (a + b) + c == a + (b + c)
 {
     assert((a + b) + c =~= a + (b + c));
+}
+
+// one assignment of an upsert's update list: `col = <the inserted value of col>` (dialect form: Ev::Excluded) or `col = expr`
+pub open spec fn upd_item(u: OnConflictUpdate) -> Seq<Ev> {
+    match u { OnConflictUpdate::Column(c) => seq![Ev::Iden(c), lit(" = "), Ev::Excluded(c)], OnConflictUpdate::Expr(c, e) => seq![Ev::Iden(c), lit(" = "), Ev::Expr(e)] }
 }
